@@ -404,23 +404,7 @@ def check_c14(idx: Index, tier: str, res: Result) -> None:
     res.check("QUERY", "delete_agents rebuilds the id lists from agent.id", ok, dele.loc(), dele.qual,
               src(rebuild[0]) if rebuild else (src(comps[0])[:80] if comps else ""), "delete_agents does not rebuild the per-type id lists from the surviving agents' ids",
               key="QUERY/Model.delete_agents/rebuild")
-    # agent(): compares ids, None when absent
-    ag = idx.func(MODEL, "Model.agent")
-    cmp_ = [n for n in walk_no_nested(ag.node) if isinstance(n, ast.Compare) and len(n.ops) == 1 and isinstance(n.ops[0], ast.Eq)
-            and {src(n.left), src(n.comparators[0])} == {"agent.id", "agent_id"}]
-    cmp_ = [n for n in ast.walk(ag.node) if isinstance(n, ast.Compare) and len(n.ops) == 1 and isinstance(n.ops[0], ast.Eq)
-            and {src(n.left), src(n.comparators[0])} == {"agent.id", "agent_id"}]
-    last = ag.node.body[-1]
-    lastv = _deref(ag.node, last.value) if isinstance(last, ast.Return) and last.value is not None else None
-    none_when_absent = isinstance(last, ast.Return) and (last.value is None or (isinstance(last.value, ast.Constant) and last.value.value is None))
-    # next((a for a in self.agents if a.id == agent_id), None)
-    if isinstance(lastv, ast.Call) and call_name(lastv) == "next" and len(lastv.args) == 2 and isinstance(lastv.args[1], ast.Constant) and lastv.args[1].value is None:
-        gen = _deref(ag.node, lastv.args[0])
-        none_when_absent = isinstance(gen, ast.GeneratorExp) and "agents" in src(gen.generators[0].iter)
-    ok = bool(cmp_) and none_when_absent
-    res.check("QUERY", "agent(id) compares ids and returns None when absent", ok, ag.loc(), ag.qual, norm_stmt(ag.node.body[-2])[:100],
-              "Model.agent does not look the agent up by comparing ids / does not answer None for an unknown id",
-              key="QUERY/Model.agent/shape")
+    model_agent_lookup_rule(idx, res, "QUERY")
     cnt = idx.func(MODEL, "Model.agent_count")
     rets = [n for n in walk_no_nested(cnt.node) if isinstance(n, ast.Return)]
     ids = idx.func(MODEL, "Model.agent_ids")
@@ -554,6 +538,7 @@ def check_c11(idx: Index, tier: str, res: Result) -> None:
             elif isinstance(t, ast.Call) and call_name(t) == "agent" and t.args:
                 k = _expr_kind(t.args[0], env)
                 okk = k == "id" and "receiver_id" in src(t.args[0])
+                model_agent_lookup_rule(idx, res, "KIND")         # the delivery is as good as the look-up it goes through
                 res.check("KIND", "delivery target %s" % src(t), okk, run_step.loc(c), run_step.qual, src(c),
                           "the receiver is looked up with %s, which is not the event's receiver id" % src(t.args[0]),
                           key="KIND/SimultaneousScheduler.run_step/lookup-arg")
@@ -565,6 +550,22 @@ def check_c11(idx: Index, tier: str, res: Result) -> None:
             elif isinstance(t, (ast.Call, ast.Subscript)) and _id_index_of(t, assigns) is not None:
                 # lookup in an {agent.id: agent} index built from the agent list
                 key = _id_index_of(t, assigns)
+                # ... in this step: an index handed in by the caller was built at another moment (once per round, once per run) and misses
+                # the agents created since
+                tb_ = t.func.value if isinstance(t, ast.Call) else t.value
+                if isinstance(tb_, ast.Name) and tb_.id in params(run_step.node):
+                    pos_ = params(run_step.node).index(tb_.id)
+                    handed = []
+                    for f_ in list(idx.all_funcs("BPTK_Py/modeling/")):
+                        for c_ in iter_calls(f_.node):
+                            if call_name(c_) == "run_step" and (any(k.arg == tb_.id and not (isinstance(k.value, ast.Constant) and k.value.value is None) for k in c_.keywords)
+                                                                or len(c_.args) >= pos_):
+                                handed.append((f_, c_))
+                    res.check("KIND", "the delivery index is built in the step that uses it", not handed, handed[0][0].loc(handed[0][1]) if handed else run_step.loc(), run_step.qual,
+                              src(handed[0][1])[:100] if handed else tb_.id,
+                              "run_step delivers through the index its caller hands in (%s builds it %s): agents created by an earlier step of the same "
+                              "round are not in it, events sent to them are dropped" % (handed[0][0].qual if handed else "", "outside the step loop" if handed else ""),
+                              key="KIND/SimultaneousScheduler.run_step/index-from-caller")
                 k = _expr_kind(key, env)
                 okk = k == "id" and "receiver_id" in src(key)
                 res.check("KIND", "delivery target %s" % src(t), okk, run_step.loc(c), run_step.qual, src(c),
@@ -730,8 +731,6 @@ def check_c11(idx: Index, tier: str, res: Result) -> None:
                 fact = True
             if any(call_name(c) == "clear" and dotted(c.func.value) == "self.events" for c in iter_calls(s)):
                 fact = True
-            if isinstance(s, ast.For) :
-                pass
         if node.kind == "iter" and label == "done" and "self.events" in src(node.ast.iter):
             fact = "iterated"
         return [fact]
@@ -746,6 +745,43 @@ def check_c11(idx: Index, tier: str, res: Result) -> None:
               "kept and its events are handled steps later (or never); path: %s"
               % (" ".join(flow.witness(cfg.exit, False)) if False in reach else "for-loop without clearing"),
               key="DRAIN/Agent.handle_events/inbox-kept")
+    # one event without a handler does not end the draining: the construct that swallows the KeyError of looking up / running an event's
+    # handler lies *inside* the draining loop (the loop goes on with the next event), not around it (the rest of the inbox stays)
+    par: Dict[int, ast.AST] = {}
+    for p_ in ast.walk(hev.node):
+        for c_ in ast.iter_child_nodes(p_):
+            par[id(c_)] = p_
+    dloops = [x for x in walk_no_nested(hev.node) if isinstance(x, (ast.While, ast.For)) and "self.events" in src(x.test if isinstance(x, ast.While) else x.iter)]
+
+    def swallows_keyerror(c_) -> bool:
+        if isinstance(c_, ast.With):
+            return any(isinstance(i_.context_expr, ast.Call) and call_name(i_.context_expr) == "suppress" and
+                       any(src(a_) in ("KeyError", "LookupError", "Exception", "BaseException") for a_ in i_.context_expr.args) for i_ in c_.items)
+        if isinstance(c_, ast.Try):
+            return any((h.type is None or any(isinstance(x, ast.Name) and x.id in ("KeyError", "LookupError", "Exception", "BaseException") for x in ast.walk(h.type)))
+                       and not any(isinstance(x, ast.Raise) for x in ast.walk(h)) for h in c_.handlers)
+        return False
+    nhandled = 0
+    for lp in dloops:
+        for st in [x for b_ in lp.body for x in ast.walk(b_) if isinstance(x, ast.stmt) and not isinstance(x, (ast.Try, ast.With, ast.If, ast.For, ast.While))]:
+            looks_up = any(isinstance(x, ast.Subscript) and isinstance(x.ctx, ast.Load) and not isinstance(x.slice, (ast.Constant, ast.Slice)) for x in ast.walk(st))
+            if not looks_up:
+                continue
+            nhandled += 1
+            up, inside_try_body = par.get(id(st)), st
+            catcher = None
+            while up is not None and up is not hev.node:
+                if swallows_keyerror(up) and any(x is inside_try_body for b_ in up.body for x in ast.walk(b_)):
+                    catcher = up
+                    break
+                inside_try_body, up = up, par.get(id(up))
+            around = catcher is not None and any(x is lp for x in ast.walk(catcher))
+            res.check("DRAIN", "a KeyError of `%s` is dealt with inside the draining loop" % norm_stmt(st)[:40], not around, hev.loc(st), hev.qual, norm_stmt(st)[:80],
+                      "when `%s` raises KeyError (an event the agent's state has no handler for) the construct that swallows it (%s) lies around "
+                      "the draining loop, not inside it: the loop ends, the rest of the inbox stays and is handled a step late, after events sent "
+                      "later" % (norm_stmt(st)[:50], norm_stmt(catcher)[:40] if catcher is not None else ""),
+                      key="DRAIN/Agent.handle_events/ends-on-unhandled-event")
+    res.floor("handler look-ups in the draining loop", nhandled, 1)
 
 
 def _cached_index_base(t: ast.AST, assigns: Optional[Dict[str, List[ast.AST]]] = None) -> Optional[str]:
@@ -763,6 +799,29 @@ def _cached_index_base(t: ast.AST, assigns: Optional[Dict[str, List[ast.AST]]] =
     if isinstance(base, ast.Attribute) and base.attr != "agents":
         return dotted(base)
     return None
+
+
+def model_agent_lookup_rule(idx: Index, res: Result, rule: str) -> None:
+    """Model.agent(id) finds the agent by comparing ids over the live agent list and answers None for an id nobody has (shared by C14
+    and C11: the scheduler may deliver through it).  A table kept across calls instead of the scan is not this shape."""
+    pass
+    # agent(): compares ids, None when absent
+    ag = idx.func(MODEL, "Model.agent")
+    cmp_ = [n for n in walk_no_nested(ag.node) if isinstance(n, ast.Compare) and len(n.ops) == 1 and isinstance(n.ops[0], ast.Eq)
+            and {src(n.left), src(n.comparators[0])} == {"agent.id", "agent_id"}]
+    cmp_ = [n for n in ast.walk(ag.node) if isinstance(n, ast.Compare) and len(n.ops) == 1 and isinstance(n.ops[0], ast.Eq)
+            and {src(n.left), src(n.comparators[0])} == {"agent.id", "agent_id"}]
+    last = ag.node.body[-1]
+    lastv = _deref(ag.node, last.value) if isinstance(last, ast.Return) and last.value is not None else None
+    none_when_absent = isinstance(last, ast.Return) and (last.value is None or (isinstance(last.value, ast.Constant) and last.value.value is None))
+    # next((a for a in self.agents if a.id == agent_id), None)
+    if isinstance(lastv, ast.Call) and call_name(lastv) == "next" and len(lastv.args) == 2 and isinstance(lastv.args[1], ast.Constant) and lastv.args[1].value is None:
+        gen = _deref(ag.node, lastv.args[0])
+        none_when_absent = isinstance(gen, ast.GeneratorExp) and "agents" in src(gen.generators[0].iter)
+    ok = bool(cmp_) and none_when_absent
+    res.check(rule, "agent(id) compares ids and returns None when absent", ok, ag.loc(), ag.qual, norm_stmt(ag.node.body[-2])[:100],
+              "Model.agent does not look the agent up by comparing ids / does not answer None for an unknown id",
+              key="%s/Model.agent/shape" % rule)
 
 
 def _id_index_of(t: ast.AST, assigns: Dict[str, List[ast.AST]]) -> Optional[ast.AST]:
